@@ -240,12 +240,35 @@ pub fn lattice_obs(worker: &vibrato::tokenizer::worker::Worker) -> String {
 
 /// Runs a whole case; returns the observation string.
 pub fn run_case(dict: Dictionary, dops: &[DOp], ign: bool, maxg: usize, wops: &[WOp]) -> Vec<String> {
+    run_case_hist(dict, dops, "", ign, maxg, wops)
+}
+
+/// `hist`: option settings applied to the tokenizer BEFORE the final ones, `H` followed by items `i0` / `i1`
+/// (`ignore_space(false/true)`) and `m<n>` (`max_grouping_len(n)`); empty = none.  Every setter overwrites its
+/// option, so the history must not matter (except that `ignore_space(true)` fails without a SPACE category).
+pub fn run_case_hist(dict: Dictionary, dops: &[DOp], hist: &str, ign: bool, maxg: usize, wops: &[WOp]) -> Vec<String> {
     let mut obs: Vec<String> = vec![];
     let dict = match apply_dops(dict, dops, &mut obs) {
         Some(d) => d,
         None => return obs,
     };
-    let tokenizer = match guarded(move || Tokenizer::new(dict).ignore_space(ign).map_err(|_| ())) {
+    let hist = hist.to_string();
+    let tokenizer = match guarded(move || -> Result<Tokenizer, ()> {
+        let mut t = Tokenizer::new(dict);
+        let b = hist.as_bytes();
+        let mut i = 1;
+        while i < b.len() {
+            let k = b[i];
+            let mut j = i + 1;
+            while j < b.len() && b[j].is_ascii_digit() {
+                j += 1;
+            }
+            let n: usize = hist[i + 1..j].parse().unwrap_or(0);
+            t = if k == b'i' { t.ignore_space(n != 0).map_err(|_| ())? } else { t.max_grouping_len(n) };
+            i = j;
+        }
+        t.ignore_space(ign).map_err(|_| ())
+    }) {
         None => {
             obs.push("O panic".to_string());
             return obs;
@@ -318,20 +341,26 @@ pub fn run_case(dict: Dictionary, dops: &[DOp], ign: bool, maxg: usize, wops: &[
     obs
 }
 
-pub fn case_line(
+pub fn case_line(id: &str, dname: &str, dict: Dictionary, dops: &[DOp], ign: bool, maxg: usize, wops: &[WOp]) -> String {
+    case_line_hist(id, dname, dict, dops, "", ign, maxg, wops)
+}
+
+pub fn case_line_hist(
     id: &str,
     dname: &str,
     dict: Dictionary,
     dops: &[DOp],
+    hist: &str,
     ign: bool,
     maxg: usize,
     wops: &[WOp],
 ) -> String {
-    let obs = run_case(dict, dops, ign, maxg, wops);
+    let obs = run_case_hist(dict, dops, hist, ign, maxg, wops);
     format!(
-        "tok {id} {dname} {} OPT {} {maxg} {} IMPL {}",
+        "tok {id} {dname} {} OPT {} {maxg}{}{hist} {} IMPL {}",
         dops_str(dops),
         ign as u8,
+        if hist.is_empty() { "" } else { " " },
         wops_str(wops),
         if obs.is_empty() { "-".to_string() } else { obs.join(" ; ") }
     )
